@@ -5,7 +5,7 @@ import logging
 from collections import defaultdict
 from pathlib import Path
 from types import NoneType
-from typing import TYPE_CHECKING
+from typing import TYPE_CHECKING, Any
 
 from safeds_stubgen import is_internal
 from safeds_stubgen.api_analyzer import (
@@ -808,7 +808,12 @@ class StubsStringGenerator:
                     has_named_type = True
 
             if len(literal_data) >= 2:
-                all_literals = [literal_type for literal in literal_data for literal_type in literal["literals"]]
+                # Union items have to be unique, this includes the values of the joined literals (True is not 1)
+                all_literals: list[Any] = []
+                for literal in literal_data:
+                    for literal_type in literal["literals"]:
+                        if not any(type(known) is type(literal_type) and known == literal_type for known in all_literals):
+                            all_literals.append(literal_type)
 
                 # We overwrite the old types of the union with the joined literal types
                 type_data["types"] = other_type_data
